@@ -329,4 +329,5 @@ type IterV struct {
 	vt    types.Type
 	str   *T // range over a constant string
 	fixed, checked bool
+	rev   *T // flip mode: true = reverse insertion order
 }
